@@ -1,5 +1,5 @@
 \* exhaustive: all cells within 14 rings x both orientations x k in -13..13 and large k of both signs
-CONSTANTS N = 14  K = 13  BigK = {36, 601, 100003, 7000001}  MaxLevel = 2
+CONSTANTS N = 14  K = 13  BigK = {36, 601, 100003, 7000001} AllKz = FALSE  AllSp = FALSE  MaxLevel = 2
 INIT Init
 NEXT NextB
 CONSTRAINT Bound
@@ -18,4 +18,5 @@ INVARIANT RotateIsGeometric
 INVARIANT RotateAdditive
 INVARIANT RotateSixIsIdentity
 INVARIANT RotatePreservesRing
+INVARIANT RotateKeepsAxial
 CHECK_DEADLOCK FALSE
